@@ -80,7 +80,7 @@ def server_part(ctx):
     import re
     rng = ctx.rng
     thorough = ctx.tier == 'thorough'
-    ntrees = 60 if thorough else 6
+    ntrees = 60 if thorough else 6 * ctx.scale
     glob = lambda p, t: re.fullmatch(''.join('.*' if c == '*' else re.escape(c) for c in p), t, re.S) is not None
     ROUTES = ['/static/*', '/st*', '/files/*', '/*']
     lines, meta = [], []
@@ -166,7 +166,7 @@ def server_part(ctx):
 def run(ctx):
     rng = ctx.rng
     thorough = ctx.tier == 'thorough'
-    ntrees = 400 if thorough else 12
+    ntrees = 400 if thorough else 12 * ctx.scale
     per_tree = 1000 if thorough else 330
     lines, meta = [], []
     if ctx.replay:
